@@ -5,7 +5,8 @@ from rules.c06 import is_delay_guard, role_auth
 EXPLAIN = ('gateway rotate_signers: (R1) with the bypass flag false, every success exit lies behind the guard '
            'now - last_rotation(or 0) >= minimum_rotation_delay (exact relation, checked subtraction); the `last` value is '
            'read before this call writes the clock; (R2) every success exit of rotate_signers and of the constructor is '
-           'preceded by LastRotationTimestamp := ledger timestamp (bypass restarts the clock, deployment counts); '
+           'preceded by LastRotationTimestamp := ledger timestamp (bypass restarts the clock, deployment counts); (R3) the delay test is reached only '
+           'with the bypass flag false (a bypass rotation is never refused for the delay); '
            '(R4) with bypass true every success exit lies behind require_auth(stored operator); (R5) LastRotationTimestamp is '
            'written only with the ledger timestamp on rotation/constructor paths and MinimumRotationDelay only by the '
            'constructor from its parameter.')
@@ -29,6 +30,11 @@ def check(P, rep):
     rep.floor('branches on the bypass flag', len(by_true), 1)
     rep.check(g.success_needs((), edges(delay) + edges(by_true)), 'C09.R1', 'rotate_signers:delay-enforced',
               'without bypass every success exit lies behind now - last >= minimum delay', entry_id(g))
+    # (R3) a bypass rotation ignores the delay: the delay test (and so its refusal) is reached only with the bypass flag false
+    for gd in delay:
+        ok, _, w = mg(g, [(gd.ctx.id, gd.bb)], (), edges(by_false)) if by_false else (False, None, None)
+        rep.check(ok, 'C09.R3', 'rotate_signers:bypass-ignores-delay', 'the minimum-delay test is applied only when the bypass flag is false '
+                  '(an authorised bypass rotation is never refused for the delay)', site(g, gd.ctx, gd.bb), None, w)
     clock = [e for e in state_effects(g) if e.kind == 'sw' and key_variant(e.key)[0] == 'LastRotationTimestamp']
     rep.floor('rotate_signers clock writes', len(clock), 1)
     # `last` is read before the clock is written
